@@ -394,6 +394,9 @@ k2("K155", "C01", [("frame/encode.go", "\t\"io\"\n", "\t\"io\"\n\t\"sync\"\n"),
    ("frame/encode.go", "\t\t\t\treturn fmt.Errorf(\"cannot compress body: %w\", err)\n\t\t\t}\n\t\t\treturn nil", "\t\t\t\treturn fmt.Errorf(\"cannot compress body: %w\", err)\n\t\t\t}\n\t\t\tuncompressedBody.Reset()\n\t\t\treturn nil")],
   "pool-hygiene:(*frame.codec).EncodeBody Get#1", "a rejected frame's partial body is prepended to the next compressed frame")
 
+k("K156", "C04", "datacodec/codec.go", "\t\tif !keyType.Comparable() {\n", "\t\tif false && !keyType.Comparable() {\n",
+  "reflect-key:datacodec.PreferredGoType MapOf#1", "reflect.MapOf reachable with a non-comparable key type")
+
 
 json.dump(C, open(os.path.join(os.path.dirname(os.path.abspath(__file__)), "controls.json"), "w"), indent=1)
 print(len(C), "controls")
